@@ -1663,16 +1663,16 @@ void Image::resize_blit(const Image& source, ssize_t x, ssize_t y, ssize_t w,
 
   for (ssize_t yy = 0; yy < h; yy++) {
     double y_rel_dist = static_cast<double>(yy) / (h - 1);
-    double source_y_progress = y_rel_dist * (sh - 1);
-    size_t source_y1 = sy + source_y_progress;
+    double source_y_progress = sy + y_rel_dist * (sh - 1);
+    size_t source_y1 = source_y_progress;
     size_t source_y2 = source_y1 + 1;
     double source_y2_factor = source_y_progress - source_y1;
     double source_y1_factor = 1.0 - source_y2_factor;
 
     for (ssize_t xx = 0; xx < w; xx++) {
       double x_rel_dist = static_cast<double>(xx) / (w - 1);
-      double source_x_progress = x_rel_dist * (sw - 1);
-      size_t source_x1 = sx + source_x_progress;
+      double source_x_progress = sx + x_rel_dist * (sw - 1);
+      size_t source_x1 = source_x_progress;
       size_t source_x2 = source_x1 + 1;
       double source_x2_factor = source_x_progress - source_x1;
       double source_x1_factor = 1.0 - source_x2_factor;
